@@ -376,15 +376,15 @@ class Engine:
         (an item store) and calls back into the cycle - directly in a nested loop, or through a forwarding helper."""
         c = []
         helpers = self.cycle_helpers
-        cyc_names = {q.rsplit(".", 1)[1] for q in self.decoder_cycle}
         for q in self.decoder_cycle - helpers:
             f = self.repo.func(q)
+            # call sites resolved by the call graph (so a call through a local alias of a bound method counts)
+            cyc_calls = {id(s.node): set(s.targets) for s in self.res.sites(f) if set(s.targets) & self.decoder_cycle}
             for n in walk_no_nested(f.node):
                 if isinstance(n, (ast.For, ast.While)):
                     inner = [x for x in ast.walk(n) if x is not n and isinstance(x, (ast.For, ast.While))]
-                    nested = any(isinstance(y, ast.Call) and isinstance(y.func, ast.Attribute) and isinstance(y.func.value, ast.Name) and y.func.value.id == "self" for x in inner for y in ast.walk(x))
-                    via_helper = any(isinstance(y, ast.Call) and isinstance(y.func, ast.Attribute) and isinstance(y.func.value, ast.Name) and y.func.value.id == "self"
-                                     and f"{self.message_cls}.{y.func.attr}" in helpers for y in ast.walk(n))
+                    nested = any(id(y) in cyc_calls for x in inner for y in ast.walk(x))
+                    via_helper = any(id(y) in cyc_calls and cyc_calls[id(y)] & helpers for y in ast.walk(n))
                     idx_store = any(isinstance(y, ast.Subscript) and isinstance(y.ctx, ast.Store) for y in ast.walk(n))
                     if nested or (via_helper and idx_store):
                         c.append(q)
